@@ -19,7 +19,7 @@ import z3
 from pyvc import ext_C20 as X
 from pyvc import lemmas as _lemmas
 from pyvc.ext_C20 import CAST, RND, ImgArr
-from pyvc.values import Iter, NArr, Obj, Opaque, PDict, PList, Sym, fresh_name, to_z3, zint
+from pyvc.values import Iter, NArr, Obj, Opaque, PDict, PList, SArr, Sym, fresh_name, to_z3, zint
 
 X.install()
 
@@ -838,18 +838,257 @@ def tr_frames(E, v, o, k=None):
     return z3.And(n == upto, z3.ForAll([j], z3.Implies(z3.And(0 <= j, j < upto), z3.Select(cols[0], j) == want)))
 
 
+# --------------------------------------------------------------------------- _get_scene (traverse client rule)
+# Whole-scene statement: the scene's object list is in one-to-one correspondence with the (parent, child) edges of the tree --
+# ghost `at` (child node -> position of its edge's object) and `who` (position -> child node) are mutually inverse -- and the
+# object of edge (p, c) is the round cone joining the two node spheres, or the containing sphere when the end spheres are nested.
+SCENE_WF = ["ids-are-positions", "node-0-is-the-root-and-parents-exist", "every-node-reaches-the-root"]
+SLEN = z3.Function("scene_len", I_, I_)  # ghost view of a scene HANDLE (call sites see the result of _get_scene as a reference)
+SCOL = [z3.Function(f"scene_col{k}", I_, I_, {"int": I_, "real": Rl, "ref": I_}[kd]) for k, kd in enumerate(X.SCENE_ROW_KINDS)]
+NESTED = z3.Function("end_spheres_nested", I_, I_, z3.BoolSort())  # ghost: NESTED(p, c) := |a_p - a_c|^2 <= (r_p - r_c)^2, see sc_nested_def
+SBLACK = z3.Function("scene_background_is_black", I_, z3.BoolSort())
+SBUILT = z3.Function("scene_index_built_after_the_last_object", I_, z3.BoolSort())
+
+
+class GhostEdgeMap:
+    """ghost object of _get_scene's proof: at[c] = position of the object of edge (parent(c), c), who[j] = child node of object j"""
+
+
+def scene_wf(which):
+    from contracts.C04 import depth
+    from contracts.common import col, nof
+
+    def f(E, v, o):
+        t = v["x"]
+        n, P, ids = nof(t), col(t, "pid").arr, col(t, "id").arr
+        i = z3.Int(fresh_name("i"))
+        inr = z3.And(i > 0, i < n)
+        if which == "ids-are-positions":
+            return z3.ForAll([i], z3.Implies(z3.And(i >= 0, i < n), z3.Select(ids, i) == i))
+        if which == "node-0-is-the-root-and-parents-exist":
+            return z3.And(z3.Select(P, 0) == -1, z3.ForAll([i], z3.Implies(inr, z3.And(z3.Select(P, i) >= 0, z3.Select(P, i) < n))))
+        if which == "every-node-reaches-the-root":
+            return z3.And(depth(0) == 0, z3.ForAll([i], z3.Implies(inr, z3.And(depth(i) == depth(z3.Select(P, i)) + 1, depth(i) > 0))))
+        raise KeyError(which)
+
+    return (which, f)
+
+
+def sc_setup(S):
+    from contracts.common import nof, sym_tree
+
+    t = sym_tree(S, "t", frozen=True)
+    G = Obj(GhostEdgeMap, dict(at=SArr(z3.K(I_, z3.IntVal(-1)), nof(t), "int", name="at"), who=SArr(z3.K(I_, z3.IntVal(-1)), nof(t), "int", name="who")))
+    return dict(self=tis_obj(S), x=t, G20=G)
+
+
+def sc_geom(t, p, c):
+    from contracts.common import col
+
+    a = [z3.Select(col(t, k).arr, p) for k in "xyz"]
+    b = [z3.Select(col(t, k).arr, c) for k in "xyz"]
+    return a, b, z3.Select(col(t, "r").arr, p), z3.Select(col(t, "r").arr, c)
+
+
+def sc_nested_def(E, t, p, c):
+    """DEFINITION of the ghost predicate at one edge: the end spheres of (p, c) are nested iff |a-b| <= |ra-rb|, stated without the
+    square root.  Instantiated at the edge of the current loop iteration only: a nonlinear fact under a quantifier (in the traversal
+    invariant, in the loop invariants) would send every failing obligation into nonlinear model search."""
+    a, b, ra, rb = sc_geom(t, p, c)
+    d2 = sum(((a[k] - b[k]) * (a[k] - b[k]) for k in range(3)), z3.RealVal(0))
+    E.assume(NESTED(p, c) == (d2 <= (ra - rb) * (ra - rb)))
+    E.assumptions.add("ghost definition: end_spheres_nested(p, c) := |a_p - a_c|^2 <= (r_p - r_c)^2 (instantiated at the edge of each loop iteration)")
+
+
+def sc_expected(t, p, c, mat):
+    """object for the edge (p, c): the sphere of the containing end when the end spheres are nested, else the round cone (a, b, ra, rb)"""
+    a, b, ra, rb = sc_geom(t, p, c)
+    nested = NESTED(p, c)
+    big_n = ra >= rb
+    zero = z3.RealVal(0)
+    row = [z3.If(nested, 0, 1)]
+    row += [z3.If(nested, z3.If(big_n, a[k], b[k]), a[k]) for k in range(3)]
+    row += [z3.If(nested, zero, b[k]) for k in range(3)]
+    row += [z3.If(nested, z3.If(big_n, ra, rb), ra), z3.If(nested, zero, rb)]
+    row += [mat]
+    return row
+
+
+def sc_view(res):
+    """(columns as functions of the position, length, background-is-black, index-built) of a scene value or a scene handle"""
+    if isinstance(res, X.SceneVal):
+        cols, ln = lview(res.objects)
+        black = res.background is not None and all((not isinstance(c, Sym)) and c == 0 for c in res.background)
+        sel = (lambda k, j: z3.Select(cols[k], j)) if cols is not None else None
+        return sel, ln, black, res.built
+    z = res.z
+    return (lambda k, j: SCOL[k](z, j)), SLEN(z), SBLACK(z), SBUILT(z)
+
+
+def sc_edges_fact(t, sel, ln, at, who, mat, covered):
+    """one object per covered edge and nothing else; `covered(c)`: the edge above node c has been handled"""
+    from contracts.common import col, nof
+
+    n, P = nof(t), col(t, "pid").arr
+    j, c = z3.Int(fresh_name("j")), z3.Int(fresh_name("c"))
+    inl = lambda q: z3.And(q >= 0, q < ln)
+    edge = lambda q: z3.And(q > 0, q < n, covered(q))
+    if sel is None:  # no object yet
+        return z3.ForAll([c], z3.Not(edge(c)))
+    wj = z3.Select(who, j)
+    exp = sc_expected(t, z3.Select(P, wj), wj, mat)
+    return z3.And(ln >= 0,
+                  z3.ForAll([j], z3.Implies(inl(j), z3.And(edge(wj), z3.Select(at, wj) == j, *[sel(k, j) == e for k, e in enumerate(exp)]))),
+                  z3.ForAll([c], z3.Implies(edge(c), z3.And(inl(z3.Select(at, c)), z3.Select(who, z3.Select(at, c)) == c))))
+
+
+def sc_J(E, v, ENT, LEFT, ctx):
+    sel, ln, _, _ = sc_view(v["scene"])
+    E.ghost["c20-scene-length-at-the-last-J"] = ln
+    G = v["G20"]
+    return sc_edges_fact(v["x"], sel, ln, G.fields["at"].arr, G.fields["who"].arr, v["material"].z, lambda q: z3.Select(LEFT, z3.Select(ctx.P, q)))
+
+
+def sc_Ql(E, v, x, val, ctx):
+    """the value left for node x is the handle of node x on this tree"""
+    from swcgeom.core.tree import Tree
+
+    if not (isinstance(val, Obj) and val.cls is Tree.Node and val.fields.get("attach") is v["x"]):
+        return False
+    return to_z3(val.fields["idx"], "int") == x
+
+
+def sc_node_value(E, node):
+    from swcgeom.core.tree import Tree
+
+    t = E.top_old["x"]
+    live = E.visible_vars().get("x", t)
+    return Obj(Tree.Node, dict(attach=live, idx=Sym(node, "int"), names=live.fields["names"]))
+
+
+def sc_children(E, v, x, ctx):
+    """the list `leave` receives at node x: the handles of x's children in table order (a NodeList of symbolic length)"""
+    from pyvc.ext_C07 import NodeList
+    from swcgeom.core.tree import Tree
+
+    k = z3.Int(fresh_name("k"))
+    q = NodeList()
+    q.items, q.cols, q.kinds, q.n, q.tup, q.name = None, [z3.Lambda([k], ctx.kid(x, k))], ["int"], ctx.nkids(x), False, "children"
+    q.attach, q.node_cls, q.names = v["x"], Tree.Node, v["x"].fields["names"]
+    q.frozen = True
+    E.assumptions.add("list-model: a list of Node handles on one tree is stored as the list of their indices (handles are value objects: attach / idx / names are never reassigned, identity is never observed)")
+    return q
+
+
+def sc_ghost_leave(E, v, x, ctx):
+    """ghost update after leave(x, children): the objects appended are those of the edges (x, k-th child), in table order"""
+    G = v["G20"]
+    ln0 = E.ghost["c20-scene-length-at-the-last-J"]
+    c, j = z3.Int(fresh_name("c")), z3.Int(fresh_name("j"))
+    at0, who0 = G.fields["at"].arr, G.fields["who"].arr
+    G.fields["at"].arr = z3.Lambda([c], z3.If(z3.And(ctx.R(c), z3.Select(ctx.P, c) == x), ln0 + ctx.rank(c), z3.Select(at0, c)))
+    G.fields["who"].arr = z3.Lambda([j], z3.If(z3.And(j >= ln0, j < ln0 + ctx.nkids(x)), ctx.kid(x, j - ln0), z3.Select(who0, j)))
+
+
+def sc_loop(which):
+    """invariants of the loop of the INLINED closure `leave` (its own contract proves them for opaque nodes; here nodes are handles)"""
+
+    def f(E, v, o, entry):
+        from contracts.common import col
+
+        sel, ln, _, _ = sc_view(v["scene"])
+        sel0, n0, _, _ = sc_view(entry["scene"])
+        ch, node = v["children"], v["n"]
+        k = to_z3(v["_k0"], "int")
+        j = z3.Int(fresh_name("j"))
+        if which == "count":
+            return ln == n0 + k
+        if sel is None:
+            return True  # nothing added yet (count says so)
+        if which == "kept":
+            if sel0 is None:
+                return True
+            return z3.ForAll([j], z3.Implies(z3.And(0 <= j, j < n0), z3.And(*[sel(q, j) == sel0(q, j) for q in range(len(X.SCENE_ROW_KINDS))])))
+        if which == "edges":
+            exp = sc_expected(node.fields["attach"], to_z3(node.fields["idx"], "int"), z3.Select(ch.cols[0], j), v["material"].z)
+            return z3.ForAll([j], z3.Implies(z3.And(0 <= j, j < k), z3.And(*[sel(q, n0 + j) == e for q, e in enumerate(exp)])))
+
+    return f
+
+
+def sc_loop_hint(E, vars):
+    """proof step: the code's test  norm(a-b) <= |ra-rb|  is the spec's square-root-free test"""
+    from contracts.common import col
+
+    c, node = vars.get("c"), vars.get("n")
+    if not (isinstance(c, Obj) and isinstance(node, Obj)):
+        return
+    t = node.fields["attach"]
+    r = col(t, "r").arr
+    d = z3.Select(r, to_z3(node.fields["idx"], "int")) - z3.Select(r, to_z3(c.fields["idx"], "int"))
+    sc_nested_def(E, t, to_z3(node.fields["idx"], "int"), to_z3(c.fields["idx"], "int"))
+    for key, y in E.ghost.items():
+        if isinstance(key, tuple) and key and key[0] == "sqrt":
+            _lemmas.use(E, "nonneg-below-abs-iff-square-below-square", y.z, d)
+            _lemmas.use(E, "nonneg-below-abs-iff-square-below-square", y.z, -d)
+
+
+def sc_post(which):
+    def f(E, v, o):
+        from contracts.common import col, nof
+
+        res = v["result"]
+        sel, ln, black, built = sc_view(res)
+        if which == "background-is-black":
+            return black
+        if which == "index-built-after-the-last-object":
+            return built
+        t = o["x"]
+        if isinstance(res, X.SceneVal):  # the carrier's own proof: the ghost maps are the witnesses
+            at, who, mat = v["G20"].fields["at"].arr, v["G20"].fields["who"].arr, v["material"].z
+        else:  # call site: witnesses exist (Skolem constants), the material is the red one
+            at = z3.Const(fresh_name("at"), z3.ArraySort(I_, I_))
+            who = z3.Const(fresh_name("who"), z3.ArraySort(I_, I_))
+            mat = X.MATERIAL(z3.RealVal(1), z3.RealVal(0), z3.RealVal(0))
+        if which == "material-is-red":
+            return mat == X.MATERIAL(z3.RealVal(1), z3.RealVal(0), z3.RealVal(0))
+        return sc_edges_fact(t, sel, ln, at, who, mat, lambda q: z3.BoolVal(True))
+
+    return f
+
+
+def reg_scene(R, scene_result):
+    from pyvc.traverse_rule import Rule
+
+    LV = f"{TR}:ToImageStack._get_scene.<locals>.leave"
+    rule = Rule(sc_J, Ql=sc_Ql, modifies=[("scene.objects", X.SCENE_ROW_KINDS), "G20"], leave_kind=sc_node_value, leave_list=sc_children,
+                ghost_leave=sc_ghost_leave, fork_steps=True)
+    R.add(f"{TR}:ToImageStack._get_scene", prop="C20", setup=sc_setup,
+          requires=[scene_wf(w) for w in SCENE_WF],
+          returns=scene_result,
+          ensures=[("exactly-one-object-per-(parent,child)-edge-the-round-cone-or-the-containing-sphere-and-nothing-else", sc_post("edges")),
+                   ("every-object-carries-the-red-material", sc_post("material-is-red")),
+                   ("background-is-black", sc_post("background-is-black")),
+                   ("index-built-after-the-last-object", sc_post("index-built-after-the-last-object"))],
+          inlined_loops={LV: {0: dict(invariant=[("one-object-per-child-so-far", sc_loop("count")), ("earlier-objects-untouched", sc_loop("kept")),
+                                                 ("object-j-is-the-edge-(n,child-j)", sc_loop("edges"))],
+                                      modifies=["scene.objects"])}},
+          options=dict(traverse_rule=rule, hints={"loop0/preserved/object-j-is-the-edge-(n,child-j)": sc_loop_hint}),
+          notes="traverse client rule; J: the scene's objects are in bijection (ghost at / who) with the edges below the nodes left so far; "
+                "the leave step runs the REAL closure on a node with a symbolic number of children (its loop cut by the invariants above)")
+
+
 def reg_transform(R):
     def scene_result(S, fr):
         r = S.eng.ghost["scene_result"] = S.int("scene")
         return Sym(r.z, "ref")
 
-    R.add(f"{TR}:ToImageStack._get_scene", prop="C20", trusted=True, returns=scene_result, ensures=[],
-          notes="assumed: returns a scene object (its per-edge content is the contract of _get_scene.<locals>.leave; the traversal is C07/C08)")
+    reg_scene(R, scene_result)
     R.add(
         f"{TR}:ToImageStack.transform",
         prop="C20",
         variants={"ranges=None,verbose=False": tr_setup, "ranges-given,verbose=False": tr_setup_ranges},
-        requires=[("resolution-positive", res_positive)],
+        requires=[("resolution-positive", res_positive)] + [scene_wf(w) for w in SCENE_WF],
         loops={0: dict(invariant=[("frames-so-far", lambda E, v, o: tr_frames(E, v, o, k=v["_k0"]))], types={"__yield__": "ref"}, modifies=["__yield__"])},
         ensures=[
             ("box-lower-corner-is-below-every-node-sphere", tr_box("lower")),
